@@ -1,9 +1,10 @@
-from specs.common import run, ASSUME_COMMON
+from specs.common import run, memcheck, ASSUME_COMMON
 
 SPEC = {
     "runs": [
         # scripted observable callbacks against the metrics reference model M
         run("e1-scripted-callbacks", "c17_observables", "asan", 4000, 300000, need_lib=True),
+        memcheck("c17_observables", 200, 10000),
         # AddCallback / RemoveCallback / instrument destruction racing Collect, TSan + perturbation shim
         run("e2-callback-churn-vs-collect", "c17_observables", "tsan", 300, 20000, need_lib=True,
             params={"mode": "race"}),
